@@ -189,6 +189,101 @@ def h_wsum(ctx):
             ctx.check(ctx.eq(got, exp, tol=1e-6), "weighted-sum-value", {"sig": "+".join(units)})
 
 
+class GridSrc(fm.TimeComponent):
+    """publishes 2x2-cell fields (symbolic value per PHYSICAL cell) on outputs with individually laid-out grids"""
+
+    def __init__(self, ctx, names, grids, days):
+        super().__init__()
+        self.ctx, self.names, self.grids = ctx, names, grids
+        self._time = hlib.T0
+        self.k = 0
+        self.vals = {}
+
+    def _next_time(self):
+        return self.time + hlib.DAY
+
+    def phys(self, n, k):
+        """values by physical cell (x index, y index along increasing coordinates)"""
+        if (n, k) not in self.vals:
+            self.vals[(n, k)] = [[self.ctx.real(f"{n}_{k}_{a}{b}") for b in range(2)] for a in range(2)]
+        return self.vals[(n, k)]
+
+    def field(self, n, k):
+        g = self.grids[n]
+        ph = self.phys(n, k)
+        arr = np.empty((2, 2), dtype=object)
+        for a in range(2):
+            for b in range(2):
+                ia = a if g.axes_increase[0] else 1 - a
+                ib = b if g.axes_increase[1] else 1 - b
+                arr[ia, ib] = ph[a][b]
+        return arr
+
+    def _initialize(self):
+        for n in self.names:
+            self.outputs.add(name=n, time=self.time, grid=self.grids[n], units="" if n.startswith("w") else "m")
+        self.create_connector()
+
+    def _connect(self, start_time):
+        self.try_connect(start_time, push_data={n: self.field(n, 0) for n in self.names})
+
+    def _validate(self):
+        pass
+
+    def _update(self):
+        self._time += hlib.DAY
+        self.k += 1
+        for n in self.names:
+            self.outputs[n].push_data(self.field(n, self.k), self.time)
+
+    def _finalize(self):
+        pass
+
+
+def h_wsum_grid(ctx):
+    """WeightedSum(inputs, grid=G) fed by producers on grids that are compatible with G but laid out differently:
+    the delivered field (in G's layout) holds, per physical cell, the sum of value x weight."""
+    hlib.reset_finam_state()
+    days = ctx.params.get("days", 1)
+
+    def lay(tag):
+        return fm.UniformGrid((3, 3), axes_increase=[ctx.flag(tag + "_incx"), ctx.flag(tag + "_incy")])
+
+    G = lay("merger")
+    names = ["v0", "w0", "v1", "w1"]
+    grids = {n: lay(n) for n in names}
+    src = GridSrc(ctx, names, grids, days)
+    ws = fm.components.WeightedSum(inputs=["v0", "v1"], grid=G)
+    sink = Sink("S", hlib.DAY)
+    comp = hlib.make_composition([src, ws, sink])
+    for i in range(2):
+        src.outputs[f"v{i}"] >> ws.inputs[f"v{i}"]
+        src.outputs[f"w{i}"] >> ws.inputs[f"v{i}_weight"]
+    ws.outputs["WeightedSum"] >> sink.inputs["In"]
+    try:
+        comp.run(end_time=hlib.T0 + hlib.DAY * days)
+    except (symx.PathAbort, symx.SymbolicLeak, symx.HarnessError):
+        raise
+    except Exception as e:  # pylint: disable=broad-except
+        ctx.log("exc", type(e).__name__)
+        ctx.fail("weighted-sum-run-fails", {"sig": f"{type(e).__name__}:grid", "error": str(e)[:200]})
+        return
+    ctx.cover("ran")
+    ginfo = sink.inputs["In"].info.grid
+    ctx.check(bool(ginfo == G), "weighted-sum-grid-is-not-the-requested-grid", {"sig": "grid"})
+    for k, (t, d) in enumerate(sink.got):
+        m = np.asarray(d.magnitude, dtype=object)
+        m = m[0] if m.ndim == 3 else m
+        for a in range(2):
+            for b in range(2):
+                ia = a if G.axes_increase[0] else 1 - a
+                ib = b if G.axes_increase[1] else 1 - b
+                exp = src.phys("v0", k)[a][b] * src.phys("w0", k)[a][b] + src.phys("v1", k)[a][b] * src.phys("w1", k)[a][b]
+                ctx.check(ctx.eq(m[ia, ib], exp, tol=1e-6), "weighted-sum-value-at-wrong-location",
+                          {"sig": "grid", "cell": [a, b], "pull": k})
+        ctx.log(f"S_{k}", m[0, 0])
+
+
 EXPLANATION = (
     "Bounded symbolic execution (symx proxies + z3). (a) Static slots: real Output(static)/Input(static or not) with "
     "symbolic payload terms and a symbolic sequence of request times or None: every delivery must be term-equal to the "
@@ -198,7 +293,9 @@ EXPLANATION = (
     "pull-based component): z3 must refute 'time given to the provider ≠ (shifted) time requested by the consumer' and "
     "'time of its own input pulls ≠ that time', and the C01 obligations hold through it. (c) WeightedSum: the real "
     "merger between a producer publishing symbolic values and weights (pairs in different but compatible units) and one "
-    "or two consumers asking for the same times: delivered term ≡ Σ value·weight in the units of the first input."
+    "or two consumers asking for the same times: delivered term ≡ Σ value·weight in the units of the first input; "
+    "with a requested merger grid and producers on compatible grids of other axis directions the sum must be formed per "
+    "PHYSICAL cell and delivered in the requested layout."
 )
 ASSUMPTIONS = ["WeightedSum scenario uses equal daily steps so that each pull hits a publication exactly"]
 
@@ -242,4 +339,9 @@ def families(tier):
             bounds=f"WeightedSum with {pairs} value/weight pairs in units {units}, {sinks} consumer(s), daily steps, "
                    f"symbolic values and weights",
             must_cover=["ran"]))
+    fams.append(dict(
+        name="wsum:grid_layouts", ref="vf.props.c20:h_wsum_grid", params={"days": 1 if q else 2},
+        bounds="WeightedSum(inputs, grid=G) with 2 value/weight pairs on 2x2-cell grids; per-axis direction of G and of "
+               "each of the four producer grids symbolic (compatible, differently laid out); symbolic value per physical "
+               "cell; daily steps", must_cover=["ran"]))
     return fams
